@@ -115,7 +115,8 @@ mutual
             injection h with h
             subst h
             have hb := hJ _ _ _ r3 (fun p' y hi => Or.inr ⟨f, fragForName_mem hf, hi⟩) h3
-            exact AllP.append (AllP.append (hd _ _) hb) (AllP.single hself)
+            exact AllP.append (AllP.append (AllP.append (hd _ _)
+              (walkDirectives_all (tSound_valSites s d) cur _ f.dirs _ _)) hb) (AllP.single hself)
   theorem walkSelections_w (s : SV) (d : QueryDoc) (cur : Option OperationDef) (J : Jump) (hJ : JumpW s d J) :
       ∀ (xs : Selections) (parent : Option Definition) (ws : WS) r,
         (∀ p' y, InSelsW s parent xs p' y → InDocW s d p' y) →
